@@ -142,3 +142,36 @@ if __name__ == '__main__':
     print(sp)
     print(section_order(repo))
     print(feature_default_bits(repo))
+
+
+def record_maps(repo):
+    """wasm_encoder struct <- wasmparser struct field maps read from reencode.rs:
+       {'MemoryType': {'minimum': ('initial', None), ...}, ...} ; conversion is the reencoder method name or None"""
+    d = crate_dir(repo, 'wasm-encoder')
+    src = open(os.path.join(d, 'src/reencode.rs')).read()
+    out = {}
+    for fn, sname in (('memory_type', 'MemoryType'), ('table_type', 'TableType'), ('global_type', 'GlobalType')):
+        m = re.search(r'pub fn %s<.*?\{(.*?)\n    \}' % fn, src, re.S)
+        if not m:
+            raise RuntimeError('reencode::%s not found' % fn)
+        body = m.group(1)
+        mm = re.search(r'crate::%s \{(.*?)\}' % sname, body, re.S)
+        fields = {}
+        for fm in re.finditer(r'(\w+):\s*(?:reencoder\.(\w+)\()?(\w+)\.(\w+)\)?\??\s*,', mm.group(1)):
+            fields[fm.group(1)] = (fm.group(4), fm.group(2))
+        out[sname] = fields
+    return out
+
+
+def variant_maps(repo):
+    """enum -> enum variant maps from reencode.rs: entity_type (TypeRef -> EntityType), export_kind"""
+    d = crate_dir(repo, 'wasm-encoder')
+    src = open(os.path.join(d, 'src/reencode.rs')).read()
+    out = {}
+    for fn in ('entity_type', 'export_kind'):
+        m = re.search(r'pub fn %s<.*?\{(.*?)\n    \}' % fn, src, re.S)
+        mp = {}
+        for vm in re.finditer(r'wasmparser::(\w+)::(\w+)(?:\(\w+\))?\s*=>\s*crate::(\w+)::(\w+)', m.group(1)):
+            mp[vm.group(2)] = vm.group(4)
+        out[fn] = mp
+    return out
